@@ -123,6 +123,21 @@ def coding_roundtrip():
                         bad.append({'key': f'corrupt-accepted-{enc}', 'detail': f'{enc}: corrupt payload decoded to different bytes without error'})
                 except Exception:  # noqa: BLE001
                     pass
+    # truncated streams: every strict prefix of an encoded body is an incomplete message and must be rejected
+    for enc in list(compression.CompressionHandler.available_encodings):
+        for body in (b'<a>hello</a>', b'<x/>' * 3000):
+            comp = compression.CompressionHandler.compress_payload(enc, body)
+            cuts = range(0, len(comp)) if len(comp) < 80 else sorted({0, 1, 5, 10, 11, 18, len(comp) // 2, len(comp) - 9, len(comp) - 8,
+                                                                       len(comp) - 5, len(comp) - 4, len(comp) - 1})
+            for k in cuts:
+                cases += 1
+                for reader, mk in ((httpreader.HTTPReader.read_request_body, _mk_request), (httpreader.HTTPReader.read_response_body, _mk_response)):
+                    try:
+                        r = reader(mk(comp[:k], enc, chunked=False))
+                    except Exception:  # noqa: BLE001
+                        continue
+                    bad.append({'key': f'truncated-accepted-{enc}', 'detail': f'{enc}: first {k} of {len(comp)} encoded bytes accepted, decoded to {len(r)} bytes (body has {len(body)})'})
+                    break
     for unknown in ('br', 'deflate', 'GZIP ', 'zstd'):
         cases += 1
         try:
